@@ -14,4 +14,4 @@ import LdkModel.Props.C04
 #print axioms Ldk.C04.all_or_nothing
 #print axioms Ldk.C04.claim_before_deadline_total
 #print axioms Ldk.C04.none_if_part_lost
-#print axioms Ldk.C04.toyWf
+#print axioms Ldk.C04.resolved_at_most_once
